@@ -658,6 +658,12 @@ func (r *reporter) flush(mets []m3thrift.Metric) []m3thrift.Metric {
 	})
 	if err != nil {
 		r.numWriteErrors.Inc()
+		// A message abandoned part-way (one of its writes was refused because
+		// the batch does not fit into a datagram) is still buffered in the
+		// transport: discard it, or it would be glued to the next batch.
+		if te, ok := err.(thrift.TTransportException); ok && te.TypeId() == thrift.INVALID_DATA {
+			_ = r.client.Transport.Flush()
+		}
 	}
 
 	// n.b. In the event that we had allocated additional tag storage in
